@@ -20,7 +20,6 @@ from lib.clifcheck import Prover, model_val
 from engine.clifsym import State, Engine, Unsupported
 
 LEVEL = 'translation_validation'
-GUARD_WORDS = 2
 BV = z3.BitVecVal
 
 
@@ -38,55 +37,7 @@ FIELD_POOL = [S('u8'), S('u16'), S('i32'), S('i64'), S('f32'), S('f64'), E1, E2,
               Opt(Ptr(S('i32')))]
 
 
-class Ob:
-    """one obligation: a function, its parameters and its post-condition builder"""
-
-    def __init__(self, name, src, params, ret, post, key):
-        self.name = name; self.src = src
-        self.params = params       # [('buf', Ty, mutable)] | [('scalar', capy type name)]
-        self.ret = ret             # capy scalar type name or None
-        self.post = post           # f(ctx) -> [(label, z3 Bool goal)], pre list via ctx.pre
-        self.key = key
-
-
-class Ctx:
-    """what a post-condition can talk about"""
-
-    def __init__(self, eng, path, args, bufs, init_mem):
-        self.eng = eng; self.path = path; self.args = args; self.bufs = bufs; self.init = init_mem
-
-    def init_byte(self, buf, i):
-        return z3.Select(self.init, BV(buf['obj'] + i, 64))
-
-    def final_byte(self, buf, i):
-        return z3.simplify(z3.Select(self.path.mem, BV(buf['obj'] + i, 64)))
-
-    def unchanged(self, buf, i):
-        return self.final_byte(buf, i) == self.init_byte(buf, i)
-
-    def init_bytes(self, buf, off, n):
-        bs = [self.init_byte(buf, off + k) for k in range(n)]
-        return z3.Concat(*reversed(bs)) if n > 1 else bs[0]
-
-    def final_bytes(self, buf, off, n):
-        bs = [self.final_byte(buf, off + k) for k in range(n)]
-        return z3.Concat(*reversed(bs)) if n > 1 else bs[0]
-
-
-def frame(ctx, buf, modifies):
-    """all bytes of the buffer (guards included) outside `modifies` [(off, size)] are unchanged"""
-    goals = []
-    lo = -8 * GUARD_WORDS; hi = buf['words'] * 8 - 8 * GUARD_WORDS
-    for i in range(lo, hi):
-        if any(o <= i < o + n for o, n in modifies):
-            continue
-        goals.append(ctx.unchanged(buf, i))
-    return z3.And(*goals) if goals else z3.BoolVal(True)
-
-
-def bytes_eq(ctx, buf, off, val):
-    n = val.size() // 8
-    return ctx.final_bytes(buf, off, n) == val
+from lib.memob import Ob, Ctx, frame, bytes_eq, setup, check_ob, GUARD_WORDS
 
 
 # ---- obligation generators -------------------------------------------------------------------------
@@ -342,142 +293,6 @@ def build_source(decls, obs):
     lines += [o.src for o in obs]
     refs = '\n'.join('    r%d := %s;' % (i, o.name) for i, o in enumerate(obs))
     return '\n'.join(lines) + '\n', 'refs :: () {\n' + refs + '\n}\n'
-
-
-def setup(eng, ob):
-    st = State()
-    args = []; xs = []; bufs = []; pre = []
-    for p in ob.params:
-        if p[0] == 'buf':
-            ty = p[1]
-            words = (ty.size() + 7) // 8 + 2 * GUARD_WORDS
-            r = eng.add_region(st, words * 8, 'buf%d' % len(bufs))
-            obj = r.lo + 8 * GUARD_WORDS
-            bufs.append({'lo': r.lo, 'obj': obj, 'words': words, 'ty': ty, 'mutable': p[2]})
-            args.append(BV(obj, 64))
-        else:
-            t = p[1]
-            v = z3.BitVec('x%d' % len(xs), clifcheck.bits_of(t))
-            if t == 'bool':
-                pre.append(z3.ULE(v, 1))
-            xs.append(v); args.append(v)
-    return st, args, xs, bufs, pre
-
-
-def check_ob(chk, prover, mod, ob, tsrc):
-    eng = Engine(mod, max_visits=8)
-    st, args, xs, bufs, pre = setup(eng, ob)
-    if getattr(ob, 'pre', None):
-        pre = pre + ob.pre(xs)
-    st.pc.extend(pre)
-    init_mem = st.mem
-    try:
-        paths = eng.run(mod.by_pretty(ob.name), args, st)
-    except Unsupported as e:
-        raise Inconclusive('%s: %s' % (ob.name, e))
-    chk.funcs_encoded.update(eng.funcs_run)
-    chk.solver_s += eng.solver_s
-    chk.cov['ir_instructions_executed'] = chk.cov.get('ir_instructions_executed', 0) + eng.steps_total
-    chk.cov['paths'] = chk.cov.get('paths', 0) + len(paths)
-    nbad = 0
-    for p in paths:
-        if p.status == 'bound':
-            raise Inconclusive(ob.name + ': path cut at the unwinding bound')
-        hyps = list(p.pc)
-        if p.status != 'ret':
-            goals = [('the write does not abort', z3.BoolVal(False))]
-        else:
-            ctx = Ctx(eng, p, args, bufs, init_mem)
-            goals = ob.post(ctx, xs)
-        if p.wild:
-            w = p.wild[0]
-            key = dict(ob.key, failure='wild-write')
-            what = '%s: store of %d bytes at %s by `%s` in %s lies outside every live object (frame escape)' % (ob.name, w['bytes'], w['addr'], w['inst'], w['func'])
-            path = common.write_replay('C02', 'wild_' + ob.name, {'property': 'C02', 'kind': 'compile', 'what': what, 'key': key,
-                                                                   'source': tsrc[0] + tsrc[1] + 'main :: () { refs(); }\n', 'wild': p.wild[:3],
-                                                                   'note': 'not reproducible by running: triage by reading the CLIF of the named function'})
-            chk.cov.setdefault('wild_writes', []).append(what)
-            r = chk.report(key, what, path)
-            nbad += 1
-        for label, goal in goals:
-            r, model = prover.prove(hyps, goal)
-            if r == 'unsat':
-                continue
-            if r == 'unknown':
-                chk.inconclusive_note('%s: no verdict on "%s"' % (ob.name, label)); continue
-            nbad += 1
-            reproduce(chk, mod, ob, xs, bufs, init_mem, model, label, tsrc)
-            break
-    chk.sample({'function': ob.src, 'paths': len(paths), 'obligations': 'frame condition + read-back, for all values and all initial bytes',
-                'verdict': 'holds' if nbad == 0 else 'counterexample'}, limit=10)
-    return nbad
-
-
-def concrete_args(ob, xs, bufs, init_mem, model):
-    """NativeBatch arguments from a model: buffers (with guards) as little-endian ints"""
-    nargs = []; ptr_args = []
-    xi = 0; bi = 0
-    for p in ob.params:
-        if p[0] == 'buf':
-            b = bufs[bi]; bi += 1
-            v = 0
-            for i in range(b['words'] * 8):
-                byte = model.eval(z3.Select(init_mem, BV(b['lo'] + i, 64)), model_completion=True).as_long()
-                v |= byte << (8 * i)
-            nargs.append((('ptr', b['ty'].src(), b['ty'].size(), b['mutable'], GUARD_WORDS), v))
-            ptr_args.append((len(nargs) - 1, b['words'] * 8))
-        else:
-            nargs.append((p[1], model_val(model, xs[xi]))); xi += 1
-    return nargs, ptr_args
-
-
-def reproduce(chk, mod, ob, xs, bufs, init_mem, model, label, tsrc):
-    """run the model's inputs natively and in the executor (concretely); report when the native run also breaks the goal"""
-    nargs, ptr_args = concrete_args(ob, xs, bufs, init_mem, model)
-    nb = clifcheck.NativeBatch('C02', 'replay_' + ob.name, tsrc[0])
-    nb.add(ob.name, nargs, ob.ret, ptr_args)
-    res = nb.run()
-    if res is None or res[0] is None:
-        chk.inconclusive_note('%s: replay program did not run (%s)' % (ob.name, (nb.last.get('build_out') or '')[-300:]))
-        return
-    native_vals = [v for v in res[0] if isinstance(v, int)]
-    # evaluate the same goal on the native observation: rebuild a concrete final memory from the printed words
-    eng = Engine(mod, max_visits=8)
-    st, args, xs2, bufs2, pre = setup(eng, ob)
-    init2 = st.mem
-    # concrete initial memory
-    m = st.mem
-    for b, b2 in zip(bufs, bufs2):
-        for i in range(b['words'] * 8):
-            byte = model.eval(z3.Select(init_mem, BV(b['lo'] + i, 64)), model_completion=True).as_long()
-            m = z3.Store(m, BV(b2['lo'] + i, 64), BV(byte, 8))
-    init_conc = m
-    # native final memory: initial bytes overwritten by what the program printed
-    k = 0
-    retv = None
-    if ob.ret is not None:
-        retv = native_vals[0]; k = 1
-    fin = init_conc
-    for b2 in bufs2:
-        for w in range(b2['words']):
-            word = native_vals[k]; k += 1
-            for j in range(8):
-                fin = z3.Store(fin, BV(b2['lo'] + 8 * w + j, 64), BV((word >> (8 * j)) & 0xff, 8))
-
-    class P:
-        pass
-    pth = P(); pth.mem = fin; pth.ret = [BV(retv, 64)] if retv is not None else None
-    ctx = Ctx(eng, pth, args, bufs2, init_conc)
-    cx = [BV(model_val(model, v), v.size()) for v in xs]
-    goals = ob.post(ctx, cx)
-    failed = [lab for lab, g in goals if not z3.is_true(z3.simplify(g))]
-    what = '%s — violated: %s; inputs %s' % (ob.src.split('\n')[-1], failed or label, [hex(model_val(model, v)) for v in xs])
-    if not failed:
-        chk.inconclusive_note('model for %s ("%s") did not reproduce natively' % (ob.name, label))
-        return
-    path = replaylib.make_native_replay('C02', ob.name, nb.source(), None, None, nb.last['stdout'], nb.last['rc'], what, ob.key,
-                                        extra={'violated_goals': failed, 'how': 'the printed words are the buffers after the call; the goals named in violated_goals fail on them (see props/c02.py); ./check C02 --replay re-evaluates them'})
-    chk.report(ob.key, what, path)
 
 
 def run(chk, tier, seed):
